@@ -1,12 +1,12 @@
 // bounded-pkg: memmetrics
-// bounded-func: memmetrics.median / medianAbsoluteDeviation (assumed contracts: order statistics via sort.Float64s)
+// bounded-func: sort.Float64s through memmetrics.median / medianAbsoluteDeviation (assumed contract: order statistics)
 // bounded-bound: every list of length 1..6 over the values {0, 0.1, 0.25, 0.5, 1}: result equals the middle order statistic (mean of the two middle ones for even length) found by counting, the deviation is the median of the absolute distances to it, the argument is left unchanged
 // bounded-bound-thorough: every list of length 1..7 over the values {0, 0.1, 0.25, 0.5, 1}: same checks
 package memmetrics
 
-// Bounded stand-in (NOT a proof): median and medianAbsoluteDeviation sort a copy with sort.Float64s, which is outside the
-// verifier's reach. SplitFloat64 itself is proved in terms of their results. Here their results are compared, on every
-// small list, with the definition by counting (no sorting involved).
+// Bounded stand-in (NOT a proof) for the assumed contract of sort.Float64s: median and medianAbsoluteDeviation are proved
+// over it (position k of the sorted copy is the k-th order statistic). Here their results are compared, on every small
+// list, with the definition of the order statistics by counting (no sorting involved).
 
 import (
 	"math"
